@@ -1,77 +1,81 @@
-(* C16 — value-to-index lookup (PseudoNetCDFFile.val2idx, core/_files.py).
+(* C16 — value-to-index lookup (PseudoNetCDFFile.val2idx, core/_files.py) as REPAIRED by
+   fixes/C16-val2idx-{no-inplace-edges,descending,top-edge,scalar-exact}.patch.
    Property statements only.  Model: Model/Val2idx.v, exact integers in a dyadic unit
    (half units on the "no bounds variable + method='bounds'" path).
-   cell_one m clean lnan rnan descending dimvals dimevals x  = the cell val2idx reports for one
-   query value x;  impl_val2idx = the whole call (options, edge derivation, direction test,
-   warning / ValueError, coordinate after the call).
-   Ascending coordinates: proved for ALL lengths, spacings (uniform or not) and query values.
-   Descending coordinates, derived edges of a uniformly spaced coordinate, the top edge with
-   right=nan and scalar 'exact' lookups: the faithful model FALSIFIES the statement (witnesses
-   below, replayed on the library = known findings). *)
+   cell_one m clean lnan rnan dsc dimvals dimevals x = the cell val2idx reports for one query
+   value x (dsc = the direction the code detected);  impl_val2idx = the whole call (options,
+   edge derivation, direction test, warning / ValueError, coordinate after the call).
+   mono dsc l = strictly descending (dsc = true) or strictly ascending (dsc = false);
+   lo_of / hi_of = the smallest / largest element of such a list.
+   All theorems hold for BOTH directions, all lengths, all spacings, all query values.
+   Binary64 rounding of the fractional index within a few ulp of an edge is outside this exact
+   model (known finding C16-float-edge, decided by the rational oracle of the harness). *)
 From PNC Require Import Base.Util Model.Val2idx Proofs.Val2idxProofs.
 Local Open Scope Z_scope.
 
-(* 'nearest', ascending coordinate of any length >= 1, any bounds representation (de is not
-   used by this method), every query value: the reported index is valid and no coordinate
-   value is closer; the only other outcomes concern values outside the coordinate range with
-   nan fill requested: masked (clean='mask') or the nan->int cast (clean='none').
-   _partial: ascending only (descending is refuted below). *)
-Theorem C16_nearest_correct_asc_partial : forall cm lnan rnan cs de x,
-  asc cs = true -> cs <> [] ->
-  match cell_one MNearest cm lnan rnan false cs de x with
+(* 'nearest': the reported index is valid and no coordinate value is closer.  The only other
+   outcomes concern values outside the coordinate range on a side whose fill is nan: masked
+   (clean='mask') or the nan->int cast (clean='none'), never a cell index. *)
+Theorem C16_nearest_correct : forall dsc cm lnan rnan cs de x,
+  mono dsc cs = true -> cs <> [] ->
+  match cell_one MNearest cm lnan rnan dsc cs de x with
   | Idx i => nearest_ok cs x i = true
-             \/ (i = INT_MIN /\ cm <> CMask /\ nan_out lnan rnan (hd 0 cs) (last cs 0) x)
-  | Masked => cm = CMask /\ nan_out lnan rnan (hd 0 cs) (last cs 0) x
+             \/ (i = INT_MIN /\ cm <> CMask /\ nan_out lnan rnan (lo_of dsc cs) (hi_of dsc cs) x)
+  | Masked => cm = CMask /\ nan_out lnan rnan (lo_of dsc cs) (hi_of dsc cs) x
   end.
-Proof. exact nearest_asc. Qed.
-Print Assumptions C16_nearest_correct_asc_partial.
+Proof. exact nearest_both. Qed.
+Print Assumptions C16_nearest_correct.
 
-(* 'bounds', ascending edge list es (n+1 edges for n cells), every query value except the top
-   edge when right=nan: the reported cell's edges contain the value; a value below/above the
-   domain is clamped to the first/last cell only when left/right=None, masked when nan fill
-   and clean='mask', and otherwise is the nan->int cast (never a cell index). *)
-Theorem C16_bounds_correct_asc_partial : forall cm lnan rnan dv es x,
-  asc es = true -> length es = S (length dv) -> (0 < length dv)%nat ->
-  (rnan = true -> x <> last es 0) ->
-  match cell_one MBounds cm lnan rnan false dv es x with
+(* 'bounds', edge list es (n+1 edges for n cells) in either direction, EVERY query value incl.
+   both outer edges: the reported cell's edges contain the value; a value below / above the
+   domain is clamped to the cell at that end only when left / right = None, masked when the
+   fill is nan and clean='mask', and is otherwise the nan->int cast (never a cell index). *)
+Theorem C16_bounds_correct : forall dsc cm lnan rnan dv es x,
+  mono dsc es = true -> length es = S (length dv) -> (0 < length dv)%nat ->
+  match cell_one MBounds cm lnan rnan dsc dv es x with
   | Idx i => contains (pairs es) x i = true
-       \/ (x < hd 0 es /\ lnan = false /\ i = 0)
-       \/ (last es 0 < x /\ rnan = false /\ i = lenZ dv - 1)
-       \/ (i = INT_MIN /\ cm <> CMask /\ nan_out lnan rnan (hd 0 es) (last es 0) x)
-  | Masked => cm = CMask /\ nan_out lnan rnan (hd 0 es) (last es 0) x
+       \/ (x < lo_of dsc es /\ lnan = false /\ i = (if dsc then lenZ dv - 1 else 0))
+       \/ (hi_of dsc es < x /\ rnan = false /\ i = (if dsc then 0 else lenZ dv - 1))
+       \/ (i = INT_MIN /\ cm <> CMask /\ nan_out lnan rnan (lo_of dsc es) (hi_of dsc es) x)
+  | Masked => cm = CMask /\ nan_out lnan rnan (lo_of dsc es) (hi_of dsc es) x
   end.
-Proof. exact bounds_asc. Qed.
-Print Assumptions C16_bounds_correct_asc_partial.
+Proof. exact bounds_both. Qed.
+Print Assumptions C16_bounds_correct.
 
-(* 'exact', ascending coordinate: an index is reported iff the value equals that coordinate
-   value, everything else is masked (for array-valued val). *)
-Theorem C16_exact_correct_asc_partial : forall cm lnan rnan cs de x,
-  asc cs = true -> cs <> [] ->
-  match cell_one MExact cm lnan rnan false cs de x with
+(* 'exact': an index is reported iff the value equals that coordinate value, everything else
+   is masked (scalar or array val alike) *)
+Theorem C16_exact_correct : forall dsc cm lnan rnan cs de x,
+  mono dsc cs = true -> cs <> [] ->
+  match cell_one MExact cm lnan rnan dsc cs de x with
   | Idx i => exact_ok cs x i = true
   | Masked => memZ x cs = false
   end.
-Proof. exact exact_asc. Qed.
-Print Assumptions C16_exact_correct_asc_partial.
+Proof. exact exact_both. Qed.
+Print Assumptions C16_exact_correct.
 
-(* The whole call on an ascending edge/coordinate list: every element of the result is the
+(* The whole call on a monotonic edge/coordinate list: every element of the result is the
    per-value cell of the three theorems above; the out-of-bounds warning is issued iff
-   bounds='warn' and some value lies outside [first edge, last edge]; ValueError is raised iff
-   bounds='error' and some value lies outside; nothing else is raised. *)
-Theorem C16_out_of_range_warned_or_rejected : forall c xs s dv de,
-  bad_opts c = false -> prep c = inr (s, dv, de) -> asc de = true -> (2 <= length de)%nat ->
-  c_scalar c = false ->
+   bounds='warn' and some value lies outside [smallest edge, largest edge]; ValueError is raised
+   iff bounds='error' and some value lies outside; nothing else is raised. *)
+Theorem C16_out_of_range_warned_or_rejected : forall c xs s dv de dsc,
+  bad_opts c = false -> prep c = inr (s, dv, de) -> mono dsc de = true -> (2 <= length de)%nat ->
   let xs' := map (Z.mul s) xs in
-  let cells := map (cell_one (c_m c) (c_c c) (c_lnan c) (c_rnan c) false dv de) xs' in
-  let out := existsb (is_out de) xs' in
+  let cells := map (cell_one (c_m c) (c_c c) (c_lnan c) (c_rnan c) dsc dv de) xs' in
+  let out := existsb (fun x => (x <? lo_of dsc de) || (hi_of dsc de <? x)) xs' in
   impl_val2idx c xs =
   match c_b c with
   | BError => if out then Raised EOutOfBounds else Done cells false dv
   | BWarn => Done cells out dv
   | _ => Done cells false dv
   end.
-Proof. exact impl_asc_form. Qed.
+Proof. exact impl_form. Qed.
 Print Assumptions C16_out_of_range_warned_or_rejected.
+
+(* a lookup never changes the coordinate variable (any options, any input) *)
+Theorem C16_coordinate_unchanged : forall c xs r w co,
+  impl_val2idx c xs = Done r w co -> co = map (Z.mul (scale_of c)) (c_cs c).
+Proof. exact coord_unchanged. Qed.
+Print Assumptions C16_coordinate_unchanged.
 
 (* the n x 2 representation with contiguous rows denotes exactly its rows as cells *)
 Theorem C16_rows_are_cells : forall rs, rs <> [] -> contig rs = true ->
@@ -79,90 +83,37 @@ Theorem C16_rows_are_cells : forall rs, rs <> [] -> contig rs = true ->
 Proof. exact pairs_rows. Qed.
 Print Assumptions C16_rows_are_cells.
 
-(* without bounds variable and non-uniform spacing the derived edges are the midpoints with
-   the end centres as outer edges (half units), and the coordinate is left unchanged *)
-Theorem C16_derived_edges_nonuniform : forall isint cs,
-  uniform (diffs cs) = false ->
-  derive_edges isint cs = inr (map (Z.mul 2) cs, natural_edges cs).
-Proof. exact derive_nonuniform. Qed.
-Print Assumptions C16_derived_edges_nonuniform.
+(* without bounds variable the derived edges are the midpoints between neighbouring centres
+   with the outer edges extended by half a spacing (uniform spacing) or equal to the end
+   centres (non-uniform) — for every coordinate with >= 2 values, integer or float (half units) *)
+Theorem C16_derived_edges_natural : forall cs, (2 <= length cs)%nat ->
+  derive_edges cs = inr (map (Z.mul 2) cs, natural_edges cs).
+Proof. exact derive_natural. Qed.
+Print Assumptions C16_derived_edges_natural.
 
-(* ---- refutations (faithful model; each witness replays on the library) ------------------ *)
-
-(* descending coordinate [40,30,20,10]: 31 and 12 are reported at index 0 *)
-Theorem C16_descending_refuted : exists c xs r w co,
-  dom0 c = false /\ region_desc c = true /\ desc (c_cs c) = true
-  /\ impl_val2idx c xs = Done r w co /\ spec_outcome c xs (Done r w co) = false.
-Proof.
-  exists (Cfg MNearest BIgnore CMask false false false false [40; 30; 20; 10] NoBounds), [31; 12].
-  eexists; eexists; eexists. vm_compute. repeat split; reflexivity.
-Qed.
-Print Assumptions C16_descending_refuted.
-
-(* in general: with the descending branch every value above the smallest coordinate value
-   is reported at index 0, whatever the coordinate *)
-Theorem C16_descending_collapses : forall cm cs de x,
-  cs <> [] -> last cs 0 < x ->
-  cell_one MNearest cm false false true cs de x = Idx 0.
-Proof.
-  intros cm cs de x Hne H. rewrite desc_collapses by auto. f_equal.
-  apply last_rev_zseq. destruct cs; [congruence | cbn; lia].
-Qed.
-Print Assumptions C16_descending_collapses.
-
-(* no bounds variable, method='bounds', uniform spacing [10,20,30,40]: 36 and 39 lie in cell
-   3 = [35,45] but are reported in cell 2 (derived edges [5,15,25,40,45]) *)
-Theorem C16_derived_edges_refuted : exists c xs r w co,
-  region_desc c = false /\ region_alias c = true
-  /\ impl_val2idx c xs = Done r w co /\ spec_outcome c xs (Done r w co) = false.
-Proof.
-  exists (Cfg MBounds BIgnore CMask false false false false [10; 20; 30; 40] NoBounds), [36; 39].
-  eexists; eexists; eexists. vm_compute. repeat split; reflexivity.
-Qed.
-Print Assumptions C16_derived_edges_refuted.
-
-(* ... and the call changes the coordinate variable itself: [10,20,30,40] -> [5,20,30,45]
-   (half units: [10,40,60,90]); an integer coordinate raises instead *)
-Theorem C16_derived_edges_mutates_coordinate :
-  (exists r w, impl_val2idx (Cfg MBounds BIgnore CMask false false false false [10; 20; 30; 40] NoBounds) [12]
-               = Done r w [10; 40; 60; 90])
-  /\ impl_val2idx (Cfg MBounds BIgnore CMask false false true false [10; 20; 30; 40] NoBounds) [12]
-     = Raised ECast.
-Proof. split; [eexists; eexists|]; vm_compute; reflexivity. Qed.
-Print Assumptions C16_derived_edges_mutates_coordinate.
-
-(* top edge with right=nan: index n of an n-cell coordinate *)
-Theorem C16_top_edge_refuted : exists c xs r w co,
-  dom0 c = true /\ region_top c xs = true
-  /\ impl_val2idx c xs = Done r w co /\ r = [Idx (lenZ (c_cs c))]
-  /\ spec_outcome c xs (Done r w co) = false.
-Proof.
-  exists (Cfg MBounds BIgnore CMask true true false false [10; 20; 30; 40] (Edges [5; 15; 25; 35; 45])), [45].
-  eexists; eexists; eexists. vm_compute. repeat split; reflexivity.
-Qed.
-Print Assumptions C16_top_edge_refuted.
-
-(* scalar val, method='exact', value not a coordinate value: TypeError instead of masked *)
-Theorem C16_scalar_exact_refuted : exists c xs,
-  dom0 c = true /\ region_scalar c xs = true /\ impl_val2idx c xs = Raised ETypeErr
-  /\ spec_outcome c xs (impl_val2idx c xs) = false.
-Proof.
-  exists (Cfg MExact BIgnore CMask false false false true [10; 20; 30; 40] NoBounds), [25].
-  vm_compute. repeat split; reflexivity.
-Qed.
-Print Assumptions C16_scalar_exact_refuted.
-
-(* ---- non-vacuity ---------------------------------------------------------------------- *)
+(* ---- non-vacuity, incl. the former failing inputs (now correct) ------------------------------ *)
 Example C16_hyp_inhabited :
-  asc [-7; -1; 4; 40] = true /\ asc [-10; -4; 1; 22; 58] = true
+  mono false [-7; -1; 4; 40] = true /\ mono true [58; 22; 1; -4; -10] = true
   /\ cell_one MNearest CMask false false false [-7; -1; 4; 40] [] 21 = Idx 2
   /\ cell_one MNearest CMask false false false [-7; -1; 4; 40] [] 23 = Idx 3
   /\ cell_one MBounds CMask true true false [-7; -1; 4; 40] [-10; -4; 1; 22; 58] 21 = Idx 2
   /\ cell_one MBounds CMask true true false [-7; -1; 4; 40] [-10; -4; 1; 22; 58] 59 = Masked
-  /\ cell_one MExact CMask false false false [-7; -1; 4; 40] [] 4 = Idx 2
+  /\ cell_one MBounds CMask true true true [40; 4; -1; -7] [58; 22; 1; -4; -10] 21 = Idx 1
+  /\ cell_one MExact CMask false false true [40; 4; -1; -7] [] 4 = Idx 1
   /\ cell_one MExact CMask false false false [-7; -1; 4; 40] [] 5 = Masked
-  /\ dom0 (Cfg MBounds BWarn CMask false false false false [-7; -1; 4; 40] (Rows [(-10, -4); (-4, 1); (1, 22); (22, 58)])) = true
-  /\ impl_val2idx (Cfg MBounds BWarn CMask false false false false [-7; -1; 4; 40] (Rows [(-10, -4); (-4, 1); (1, 22); (22, 58)])) [0; 58; 60]
+  /\ dom0 (Cfg MBounds BWarn CMask false false [-7; -1; 4; 40] (Rows [(-10, -4); (-4, 1); (1, 22); (22, 58)])) = true
+  /\ impl_val2idx (Cfg MBounds BWarn CMask false false [-7; -1; 4; 40] (Rows [(-10, -4); (-4, 1); (1, 22); (22, 58)])) [0; 58; 60]
      = Done [Idx 1; Idx 3; Idx 3] true [-7; -1; 4; 40]
-  /\ uniform (diffs [-7; -1; 4; 40]) = false.
+  (* descending [40,30,20,10]: 31 -> 1, 12 -> 3 *)
+  /\ impl_val2idx (Cfg MNearest BIgnore CMask false false [40; 30; 20; 10] NoBounds) [31; 12]
+     = Done [Idx 1; Idx 3] false [40; 30; 20; 10]
+  (* derived edges of [10,20,30,40]: 36 and 39 -> cell 3, coordinate untouched (half units) *)
+  /\ impl_val2idx (Cfg MBounds BIgnore CMask false false [10; 20; 30; 40] NoBounds) [36; 39]
+     = Done [Idx 3; Idx 3] false [20; 40; 60; 80]
+  (* top edge with right=nan -> last cell *)
+  /\ impl_val2idx (Cfg MBounds BIgnore CMask true true [10; 20; 30; 40] (Edges [5; 15; 25; 35; 45])) [45]
+     = Done [Idx 3] false [10; 20; 30; 40]
+  (* exact on a value that is not a coordinate value -> masked *)
+  /\ impl_val2idx (Cfg MExact BIgnore CMask false false [10; 20; 30; 40] NoBounds) [25]
+     = Done [Masked] false [10; 20; 30; 40].
 Proof. vm_compute. repeat split; reflexivity. Qed.
